@@ -226,7 +226,15 @@ func body(c cfg) func() {
 		st := vsys.GetStats()
 		lastCounters = map[string]int{"short_writes": st.ShortWrites, "eagain": st.Eagains, "eintr": st.Eintrs, "writev": st.Writevs, "sendfile": st.Sendfiles}
 		if snap.QueueLen > 0 {
-			lastCounters["ended_with_backlog_not_judged_here"] = 1
+			// the peer reads whenever there is something to read and the system is quiescent: what
+			// is still queued will never be sent, i.e. accepted bytes are lost. (Not judged when an
+			// EINTR was injected: Linux does not interrupt non-blocking socket writes, and nbio
+			// relies on a writability event that a socket that never filled up does not owe.)
+			if st.Eintrs == 0 && !closed && len(fails) == 0 {
+				fails = append(fails, fmt.Sprintf("stall %s|the peer has read everything and the system is quiescent, but %d of %d accepted bytes were never sent (queue %v, isWAdded=%v)", c.mode, accepted-len(peer.Got), accepted, snap.Queue, snap.IsWAdded))
+			} else {
+				lastCounters["ended_with_backlog_not_judged"] = 1
+			}
 		}
 		if st.Eagains > 0 || st.ShortWrites > 0 {
 			lastCounters["backpressure_execs"] = 1
